@@ -20,18 +20,22 @@ def queries():
             qs.append(Query('radix_bucket_r%d_u%d' % (radix, bits), SRC, 'h_radix_bucket',
                             'BucketComputation<%d, %s>: all limit <= m <= x <= y over the full %d-bit domain: index range, monotonicity, bucket 0, redistribution, bounds' % (radix, ty, bits),
                             defs=['RADIX=%d' % radix, 'RINT=' + ty], tiers=('quick', 'thorough') if quick else ('thorough',), timeout=900 if quick else 3600, unwind=70, max_unwind=80))
+    SCRIPTS_Q = ['ppok', 'ppsk', 'epto']
+    SCRIPTS_T = ['pppo', 'ppso', 'pospk', 'ppcpk', 'ppopt', 'pepsp', 'ppoppk', 'pposk', 'eesok', 'ptptpt']
     for radix in (2, 4, 16):
         for key in ('uint8_t', 'int8_t'):
-            for h in (3, 4, 5):
-                quick = (h == 3 and radix == 4)
-                qs.append(Query('radixheap_r%d_%s_h%d' % (radix, key.replace('_t', ''), h), SRC, 'h_radixheap',
-                                'RadixHeap<%s keys, radix %d>: %d symbolic monotone operations (push, emplace, top, pop, peak_top_key, swap_top_bucket, clear) + drain vs multiset model, all 8-bit keys' % (key, radix, h),
-                                defs=['RADIX=%d' % radix, 'RKEY=' + key, 'H=%d' % h, 'RINT=uint32_t'], link=['tlx/die/core.cpp'], ll2c=['--alloc-cap', '8'], tiers=('quick', 'thorough') if quick else ('thorough',),
-                                timeout=1800 if quick else 7200, unwind=4, max_unwind=64, weight=h * 4))
+            for sc in SCRIPTS_Q + SCRIPTS_T:
+                quick = sc in SCRIPTS_Q and radix == 4 and key == 'uint8_t' or (sc == 'ppsk' and radix == 2 and key == 'int8_t')
+                qs.append(Query('radixheap_r%d_%s_%s' % (radix, key.replace('_t', ''), sc), SRC, 'h_radixheap',
+                                'RadixHeap<%s keys, radix %d>: scripted operation kinds "%s" (p push, e emplace, t top, o pop, k peak_top_key, s swap_top_bucket, c clear) with symbolic monotone 8-bit keys, then drain, vs multiset model' % (key, radix, sc),
+                                defs=['RADIX=%d' % radix, 'RKEY=' + key, 'H=%d' % len(sc), 'SCRIPT="%s"' % sc, 'RINT=uint32_t'], link=['tlx/die/core.cpp'], ll2c=['--alloc-cap', '8'], tiers=('quick', 'thorough') if quick else ('thorough',),
+                                timeout=1800 if quick else 7200, unwind=4, max_unwind=64, weight=len(sc) * 4))
+    qs.append(Query('radixheap_r4_uint8_sym_h2', SRC, 'h_radixheap', 'RadixHeap<uint8_t, radix 4>: 2 fully symbolic operations + drain', defs=['RADIX=4', 'RKEY=uint8_t', 'H=2', 'RINT=uint32_t'], link=['tlx/die/core.cpp'], ll2c=['--alloc-cap', '8'],
+                    tiers=('thorough',), timeout=7200, unwind=4, max_unwind=64))
     qs.append(Query('radix_rank', SRC, 'h_radix_rank', 'IntegerRank<int8/16/32/64, uint32>: order preserving and invertible on the full domain', unwind=3))
     return qs
 
 ASSUMPTIONS = ['history queries give every std::vector a concrete capacity of 8 up front (reserve / moved-in vector), so libstdc++ reallocation is not on a feasible path except in the *_growth queries',
                'addressable heap: keys are unique unsigned integers, update(key) is called after a priority change (documented)', 'radix heap: keys are not smaller than the current insertion limit (monotonicity precondition)']
-OUTSIDE = ['whole RadixHeap histories with 16/32/64-bit keys (only the bucket/rank kernels are decided at those widths)', 'arity > 8, more than 6 operations, key universe > 6', 'the library self-check sanity_check() (std::queue) is not called']
+OUTSIDE = ['RadixHeap histories beyond the listed operation scripts (operation kinds are scripted, keys symbolic; measured: 3 fully symbolic operations = 19 M variables, no verdict in 30 min)', 'whole RadixHeap histories with 16/32/64-bit keys (only the bucket/rank kernels are decided at those widths)', 'arity > 8, more than 6 operations, key universe > 6', 'the library self-check sanity_check() (std::queue) is not called']
 EXPLANATION = 'symbolic operation histories vs multiset / key-set models; radix-heap bucket arithmetic as full-width bit-vector queries'
